@@ -994,7 +994,58 @@ def fam_seeded_history(tier="quick", seed=0):
         yield dict(seed=sd, batch_size=9)
 
 
+
+def rt_epoch_visits(inp):
+    """reconstruct(): in every epoch each training pattern is handed to the forward model exactly once, validation patterns
+    only to the validation pass, and together they cover all patterns (observed by wrapping dset.forward inside the checker)."""
+    import numpy as np
+
+    pt = _toy(inp["seed"])
+    pt.val_ratio = inp["val_ratio"]
+    pt.val_mode = inp["val_mode"]
+    seen = []
+    real_forward = pt.dset.forward
+
+    def spy(batch_indices, *a, **k):
+        seen.append([int(i) for i in np.asarray(batch_indices).ravel()])
+        return real_forward(batch_indices, *a, **k)
+
+    pt.dset.forward = spy
+    epochs = 2
+    opt = {"object": {"type": "sgd", "lr": 0.1}, "probe": {"type": "sgd", "lr": 0.1}}
+    try:
+        pt.reconstruct(num_iters=epochs, reset=True, optimizer_params=opt, batch_size=inp["batch_size"], device="cpu")
+    finally:
+        pt.dset.forward = real_forward
+    num = pt.dset.num_gpts
+    flat = [i for b in seen for i in b]
+    problems = []
+    per_epoch = len(flat) // epochs if epochs else 0
+    if len(flat) != epochs * num:
+        problems.append(f"{len(flat)} pattern visits in {epochs} epochs of {num} patterns (expected {epochs * num}: training + validation each once)")
+    else:
+        for e in range(epochs):
+            chunk = sorted(flat[e * per_epoch:(e + 1) * per_epoch])
+            if chunk != list(range(num)):
+                missing = sorted(set(range(num)) - set(chunk))
+                problems.append(f"epoch {e}: visited multiset != all patterns once (missing {missing[:8]}, {len(chunk) - len(set(chunk))} repeats)")
+                break
+    if inp["val_ratio"] == 0 and inp["batch_size"] and any(len(b) > inp["batch_size"] for b in seen):
+        problems.append("a batch is larger than batch_size")
+    return dict(violated=bool(problems), observed="; ".join(problems) or "ok",
+                expected="every pattern handed to the forward model exactly once per epoch (training batches + validation pass)")
+
+
+def fam_epoch_visits(tier="quick", seed=0):
+    combos = [(9, 0.0, "grid"), (5, 0.0, "grid"), (36, 0.25, "grid"), (7, 0.3, "random")]
+    if tier != "quick":
+        combos += [(1, 0.0, "grid"), (4, 0.5, "grid"), (40, 0.1, "random"), (11, 0.7, "grid")]
+    for bs, vr, vm in combos:
+        yield dict(batch_size=bs, val_ratio=vr, val_mode=vm, seed=3)
+
+
 C_ERR.rt, C_ERR.rt_family = rt_loss_invariance, fam_loss_invariance
+C_RECON.rt, C_RECON.rt_family = rt_seeded_history, fam_seeded_history
 
 CONTRACTS = [C_SUBDIVIDE, C_GENERATE, C_ITER, C_LEN, C_ITERVAL, C_VALLEN, C_INIT, C_RNGSET, C_MSET, C_RESET, C_RESETRECON, C_RESETRECON2, C_ERR, C_RECON]
 
@@ -1046,6 +1097,7 @@ EXPLANATION = "VCs generated from the real source of SimpleBatcher / subdivide_b
 BOUNDED = [
     Bounded.from_rt("subdivide/generate_batches small inputs", rt_subdivide, fam_subdivide, "num_items<=13, num_batches/max_batch<=14"),
     Bounded.from_rt("toy ptychography (6x6 scan): mean per-batch loss/gradient = full-batch for b | 36", rt_loss_invariance, fam_loss_invariance, "6x6 scan, 6x6 ROI, divisors of 36, 2 (4) loss types"),
+    Bounded.from_rt("toy ptychography: reconstruct() hands every pattern to the forward model exactly once per epoch", rt_epoch_visits, fam_epoch_visits, "6x6 scan, 2 epochs, 4 (8) batch-size / validation settings"),
     Bounded.from_rt("toy ptychography: identical loss histories for the same seed and after reset", rt_seeded_history, fam_seeded_history, "2 (5) seeds incl. 0, 2 iterations, batch 9 of 36"),
     Bounded.from_rt("RNG reset restarts the generators from the stored seed", rt_reset, fam_reset, "8 seeds incl. 0 and > 2^32, None"),
     Bounded.from_rt("SimpleBatcher small configurations", rt_batcher, fam_batcher, "num<=17, batch_size<=20, 9 split settings, 2 epochs"),
